@@ -5,6 +5,7 @@ import (
 	"errors"
 	"regexp"
 	"sync"
+	"time"
 
 	"github.com/scrapli/scrapligo/driver/generic"
 
@@ -208,6 +209,7 @@ type Driver struct {
 	errs      chan error
 	done      chan bool
 	closeOnce sync.Once
+	readDone  chan struct{}
 }
 
 // Open opens the underlying generic.Driver, and by extension the channel.Channel and Transport
@@ -222,7 +224,15 @@ func (d *Driver) Open() (reterr error) {
 	select {
 	case <-d.done:
 		// opening again after a Close: the done signal of the previous session is used up, and the
-		// hello is framed with the 1.0 delimiter whatever the previous session had negotiated
+		// hello is framed with the 1.0 delimiter whatever the previous session had negotiated. the read
+		// loop of that session must be gone before the signal is replaced, or it would live on
+		if d.readDone != nil {
+			select {
+			case <-d.readDone:
+			case <-time.After(time.Second):
+			}
+		}
+
 		d.done = make(chan bool)
 		d.closeOnce = sync.Once{}
 		d.Channel.PromptPattern = getNetconfPatterns().v1Dot0Delim
@@ -256,6 +266,8 @@ func (d *Driver) Open() (reterr error) {
 	if err != nil {
 		return err
 	}
+
+	d.readDone = make(chan struct{})
 
 	go d.read()
 
